@@ -277,8 +277,8 @@ def rule_reset(ctx: Ctx) -> int:
 def rule_cfg_idempotent(ctx: Ctx) -> int:
     """A store into the configuration made at run time must not depend on what the same entry held before: the
     configuration object outlives the run (it is the caller's, and it is run again), so a read-modify-write of one of
-    its entries accumulates from run to run."""
-    from ..astx import walk_no_nested as _w
+    its entries accumulates from run to run.  Local aliases of a sub-dictionary (`step_cfg = cfg["pipeline"][step]`)
+    denote the configuration too; `setdefault` / `+=` / `.update(x | old)` are read-modify-writes."""
     from ..defuse import Defs
     from ..rules_sm import SM, machine_methods
 
@@ -291,22 +291,39 @@ def rule_cfg_idempotent(ctx: Ctx) -> int:
         if "cfg" not in params:
             continue
         d = Defs(fn)
-        for st in _w(fn):
+
+        def root_is_cfg(node: ast.AST, depth: int = 4) -> bool:
+            while isinstance(node, ast.Subscript):
+                node = node.value
+            if isinstance(node, ast.Name):
+                if node.id == "cfg":
+                    return True
+                if depth > 0:
+                    return any(pos is None and isinstance(v, (ast.Subscript, ast.Name)) and root_is_cfg(v, depth - 1) for _, v, pos in d.all_defs(node.id))
+            return False
+
+        def full_path(node: ast.AST) -> str:
+            return canon(d.expand(node, node, depth=3, stop=("cfg",)))
+
+        for st in walk_no_nested(fn):
+            # read-modify-write method calls on the configuration
+            if isinstance(st, ast.Expr) and isinstance(st.value, ast.Call) and isinstance(st.value.func, ast.Attribute) and st.value.func.attr in ("setdefault",) and root_is_cfg(st.value.func.value):
+                n += 1
+                ctx.ob("C18.CFG-IDEMPOTENT", SM, st, f"{name}: `{src(st)[:90]}` overwrites the entry with a value that does not depend on its previous content", False, expected="an unconditional overwrite", detail="setdefault keeps what an earlier run left in the configuration entry")
+                continue
             if not isinstance(st, (ast.Assign, ast.AugAssign)):
                 continue
             for t in st.targets if isinstance(st, ast.Assign) else [st.target]:
-                base = t
-                while isinstance(base, ast.Subscript):
-                    base = base.value
-                if not (isinstance(t, ast.Subscript) and isinstance(base, ast.Name) and base.id == "cfg"):
+                if not (isinstance(t, ast.Subscript) and root_is_cfg(t)):
                     continue
                 n += 1
-                path = canon(t)
+                path = full_path(t)
                 val = d.expand(st.value, st, depth=4, stop=("cfg",))
-                reads = [x for x in ast.walk(val) if isinstance(x, (ast.Subscript, ast.Attribute)) and (canon(x) == path or (isinstance(x, ast.Attribute) and x.attr in ("get", "setdefault", "pop") and canon(x.value) == canon(t.value)))]
+                reads = [x for x in ast.walk(val) if (isinstance(x, ast.Subscript) and full_path(x) == path) or (isinstance(x, ast.Attribute) and x.attr in ("get", "setdefault", "pop") and full_path(x.value) == full_path(t.value))]
                 ok = not reads and not isinstance(st, ast.AugAssign)
                 ctx.ob("C18.CFG-IDEMPOTENT", SM, st, f"{name}: `{src(st)[:90]}` overwrites the entry with a value that does not depend on its previous content", ok, expected="an overwrite computed from the step name / constants only", detail=f"the stored value reads `{canon(reads[0])[:80] if reads else path}`, i.e. what an earlier run left in the same configuration entry: products (here a band name) differ between the first and the second run with the same checked configuration")
     return n
+
 
 def run(ctx: Ctx) -> None:
     tree = ctx.tree
@@ -325,6 +342,9 @@ def run(ctx: Ctx) -> None:
     n = rule_stateless(ctx, "C18.STATELESS", None)
     ctx.floor("C18.STATELESS", n, 100)
     ctx.floor("C18.CFG-IDEMPOTENT", rule_cfg_idempotent(ctx), 1)
+    from ..rules_par import rule_ieee
+
+    ctx.floor("C18.IEEE", rule_ieee(ctx, "C18.IEEE"), 12)
     for key in (
         "pandora/aggregation/cbca.py::CrossBasedCostAggregation.cost_volume_aggregation",
         "pandora/matching_cost/sad_ssd.py::SadSsd.compute_cost_volume",
@@ -372,6 +392,9 @@ SPEC = PropSpec(
 RISK = "pandora/cost_volume_confidence/risk.py"
 AMB = "pandora/cost_volume_confidence/ambiguity.py"
 MUTANTS = [
+    {"id": "indicator-through-alias-setdefault-plus-equal", "file": "pandora/state_machine.py", "old": '        cfg["pipeline"][input_step]["indicator"] = ""\n        if len(input_step.split(".")) == 2:\n            cfg["pipeline"][input_step]["indicator"] = "." + input_step.split(".")[1]\n', "new": '        step_cfg = cfg["pipeline"][input_step]\n        step_cfg.setdefault("indicator", "")\n        if len(input_step.split(".")) == 2:\n            step_cfg["indicator"] += "." + input_step.split(".")[1]\n'},
+    {"id": "eq-indicator-through-alias-overwrite", "kind": "equiv", "file": "pandora/state_machine.py", "old": '        cfg["pipeline"][input_step]["indicator"] = ""\n        if len(input_step.split(".")) == 2:\n            cfg["pipeline"][input_step]["indicator"] = "." + input_step.split(".")[1]\n', "new": '        step_cfg = cfg["pipeline"][input_step]\n        step_cfg["indicator"] = ""\n        if len(input_step.split(".")) == 2:\n            step_cfg["indicator"] = "." + input_step.split(".")[1]\n'},
+    {"id": "kernel-compiled-with-fastmath", "file": "pandora/cost_volume_confidence/ambiguity.py", "old": '    @njit(\n        "f4[:, :](f4[:, :, :], f4, f4, f4)",\n', "new": '    @njit(\n        "f4[:, :](f4[:, :, :], f4, f4, f4)",\n        fastmath=True,\n'},
     {"id": "indicator-suffix-appended-to-previous", "file": "pandora/state_machine.py", "old": '        cfg["pipeline"][input_step]["indicator"] = ""\n        if len(input_step.split(".")) == 2:\n            cfg["pipeline"][input_step]["indicator"] = "." + input_step.split(".")[1]\n', "new": '        indicator = cfg["pipeline"][input_step].get("indicator", "")\n        if len(input_step.split(".")) == 2:\n            indicator += "." + input_step.split(".")[1]\n        cfg["pipeline"][input_step]["indicator"] = indicator\n'},
     {"id": "eq-indicator-computed-in-a-local", "kind": "equiv", "file": "pandora/state_machine.py", "old": '        cfg["pipeline"][input_step]["indicator"] = ""\n        if len(input_step.split(".")) == 2:\n            cfg["pipeline"][input_step]["indicator"] = "." + input_step.split(".")[1]\n', "new": '        indicator = ""\n        if len(input_step.split(".")) == 2:\n            indicator = "." + input_step.split(".")[1]\n        cfg["pipeline"][input_step]["indicator"] = indicator\n'},
     {"id": "median-caches-last-result-on-self", "file": "pandora/filter/median.py", "old": "        disp_median = self.median_filter(masked_data)\n", "new": "        disp_median = self.median_filter(masked_data)\n        self._last = disp_median\n"},
